@@ -463,7 +463,7 @@ class PyFE:
         if isinstance(o, ChecksumService):
             if name == 'calc':
                 def calc(buf):
-                    w, signed = self.cks_hint
+                    w, signed = self.cks_hint.get(o.alg, self.cks_hint['*'])
                     return PyInt(refmod.cks_uf(o.alg, w, list(buf.b)), signed)
                 return Bound(calc)
         if isinstance(o, list):
@@ -572,11 +572,7 @@ class PyFE:
         return buf.b, o
 
     def _cks_width(self, packet):
-        for f in packet.fields:
-            sem = self.spec.resolve(f)
-            if sem[0] == 'checksum':
-                return WIDTH[sem[1]], sem[1] in SIGNED
-        return 4, False
+        return refmod.cks_hints(self.spec, packet)
 
     def decode(self, ctl, packet, data, cks_registered=True):
         self.ctl = ctl
